@@ -6,24 +6,32 @@
      C06_no_conflict_partial   (model-level: a pending WriteAt and a concurrent read of the same
                                 file never touch the same entry; PARTIAL by nature: a Rocq model
                                 has no Go memory model -- the race detector runs on the harness)
-   Proved for every program list with a single writer thread and every schedule:
-     C06_stable_entry_intact   (no read ever goes through a closed or deleted file: IOErr is never
-                                recorded; consequence of the handle-ownership invariant
-                                CloseInv2.Inv2, see Props/C14.v)
-   NOT proved (statement: Readers.reads_linearizable_statement): C06_reads_linearizable.
-   Evidence is the sched06 stream: the model and the implementation agree on every forced
-   schedule, every read of every forced and free-running history is checked by the Go
-   history checker, and `Readers.lin_check` evaluates to true on the Examples below.
-   The statement was corrected in this round: a read that overlaps Close may return ErrClosed
-   as soon as Close has set the closed flag, which is earlier than the swap of the state
-   object (Example C06_ex_close_window: with the former clause `spec_read = ErrClosed` the
-   read below had no linearization point).
-   What is missing for the proof: the argument that the value read through a retired state
-   object x equals the abstract value of a state that was current between invoke and return
-   (the view through x changes only when the writer publishes commitIdx of a tail that x
-   shares with the current state, and then agrees with the current state). *)
+   Proved for every program list with a single writer thread (any number of readers, Close
+   callers, stable-store callers) and every schedule:
+     C06_stable_entry_intact   no read ever goes through a closed or deleted file: IOErr is never
+                               recorded (from the handle-ownership invariant CloseInv2.Inv2)
+     C06_reads_linearizable    every completed FirstIndex / LastIndex / GetLog: its result is the
+                               result the abstract log (the current version) gives in some state
+                               between the read's invocation (the step that loads the closed
+                               flag) and its return; a read overlapping Close may instead return
+                               ErrClosed once Close has set the closed flag.
+   Proof of the latter (Conc/Read*.v): the structural invariant ReadInv.Inv3 of the version
+   sequence (handle ids grow with the versions, the tail has the largest base, a version that
+   keeps its predecessor's tail keeps a suffix of its file list and does not lower the first
+   index, first index <= base + commitIdx of the tail); `view g x o` = what a reader holding
+   version x computes; ReadStable.view_step: a step changes the view through x only when the
+   writer stores commitIdx of a tail that x shares with the current version, and then the
+   new view equals the view through the current version (ReadView.commit_view); file
+   contents are append-only below the committed prefix (ReadFrame.ents_step); hence every
+   in-flight read carries a justification that survives every step (ReadLin.claim_other /
+   claim_own), and an induction along the schedule (ReadLin2.events_lin) discharges every
+   event of Readers.events.
+   The statement was corrected in this round: with the former clause `spec_read = ErrClosed`
+   a read that starts after Close set the flag and before Close swapped the state object
+   had no linearization point (Example C06_ex_close_window).
+   Not in the model: base-index resets (implementation-only cases of the sched06 stream). *)
 From Coq Require Import List Arith Bool.
-From RW Require Import Conc.Sys Conc.Close Conc.CloseSafe Conc.CloseReach Conc.CloseThm Conc.CloseThm2 Conc.Readers.
+From RW Require Import Conc.Sys Conc.Close Conc.CloseSafe Conc.CloseReach Conc.CloseThm Conc.CloseThm2 Conc.Readers Conc.ReadLin2.
 Import ListNotations.
 
 Theorem C06_visible_only_durable : forall progs extra s,
@@ -52,6 +60,17 @@ Theorem C06_stable_entry_intact : forall w progs extra sch t th,
 Proof. exact stable_entry_intact. Qed.
 Print Assumptions C06_stable_entry_intact.
 
+Theorem C06_reads_linearizable : forall w progs extra sch e,
+  single_writer w progs extra ->
+  In e (events (init progs extra) sch) -> lin_read (states_along (init progs extra) sch) e.
+Proof. exact reads_linearizable. Qed.
+Print Assumptions C06_reads_linearizable.
+
+(* the statements as formulated in Conc/Readers.v *)
+Theorem C06_statements : reads_linearizable_statement /\ stable_entry_intact_statement.
+Proof. exact readers_statements. Qed.
+Print Assumptions C06_statements.
+
 (* ---- Examples: the per-read checker on concrete schedules ---------------------------- *)
 (* writer: append 1,2 (tag 1), tail truncation to 1, re-append 2,3 with tag 7, head truncation;
    reader 1 sees entry 2 with tag 1 before and tag 7 after the re-append *)
@@ -59,6 +78,11 @@ Definition ex_w : list op := [OStore false 1 2; OTrunc 1; OStore false 7 2; ODel
 Definition ex_cfg : list (list op) := [ex_w; [OGet 2; OLast; OGet 2]; [OFirst; OGet 1; OGet 3]].
 Fixpoint rr (n : nat) : list tid := match n with O => [] | S k => [1; 0; 2; 0; 3; 0] ++ rr k end.
 Example C06_ex_lin : lin_check (init ex_cfg []) (rr 40) = true.
+Proof. vm_compute. reflexivity. Qed.
+(* the schedule above contains six completed reads (non-vacuity of C06_reads_linearizable) *)
+Example C06_ex_events :
+  map (fun e => (r_tid e, r_op e, r_res e)) (events (init ex_cfg []) (rr 40)) =
+  [(2, OFirst, Ok 1); (1, OGet 2, Ok 1); (1, OLast, Ok 1); (2, OGet 1, Ok 1); (1, OGet 2, Ok 7); (2, OGet 3, Ok 7)].
 Proof. vm_compute. reflexivity. Qed.
 Example C06_ex_reads :
   let s := run step (init ex_cfg []) (rr 40) in
